@@ -103,8 +103,8 @@ def families(tier):
         pre = base + ["x5 == %d" % NOP, "a5 == 0", "t >= 4", "x4 == 0 or x4 == 3 or x4 == 4 or x4 == %d" % NOP]
         parts = parts_product(cb=(3,), n1=(2,), x2=range(NOP), x3=range(NOP))
     else:
-        pre = base + ["0 <= x5 <= %d" % NOP, "a5 >= -1", "t >= 0"]
-        parts = parts_product(cb=(1, 2, 3), n1=(2, 3), x2=range(NOP), x3=range(NOP), x4=range(NOP + 1))
+        pre = base + ["x5 == %d" % NOP, "a5 == 0", "t >= 0", "cb == 3"]
+        parts = parts_product(n1=(2, 3), x2=range(NOP), x3=range(NOP))
     return [Family(name="flush", fn="tpl_flush", params=P, pre=pre, parts=parts,
-                   twin_pre=["cb == 1", "n1 == 2", "x2 == 1", "x3 == 4", "x4 == %d" % NOP, "x5 == %d" % NOP],
-                   twin_args=[2, 1, 2, 1, 0, 4, 0, NOP, 0, NOP, 0, 5])]
+                   twin_pre=["cb == 3", "n1 == 2", "x2 == 1", "x3 == 3", "x4 == 4", "x5 == %d" % NOP],
+                   twin_args=[2, 3, 2, 1, 0, 3, 0, 4, 0, NOP, 0, 5])]
